@@ -26,6 +26,10 @@
 //	slotfn s    call_indirect tab[4+s]     (type () -> (); slots 4,5,7 hold m0's f0,f1,f0; slot 6 holds f2 of
 //	                                        m1b - an instance of the SAME compiled module as m1)
 //	slottail s  return_call_indirect tab[4+s]   (last op of a body only)
+//	gset i v    global.set G_i (i32.const v)   gget i: log(global.get G_i)   where G_0 and G_1 are TWO imports of the one
+//	                                        mutable global m0.sg in b1 and b2 (a module may import an object under
+//	                                        several indexes: one shared object, whatever index it is reached by), and
+//	                                        both name m0's own sg in b0
 //	trap        unreachable                hpanic: call env.boom, a host function that panics (last op only)
 //
 // All observations go to the instance's own memory (plain stores), never through an extra host call, so
@@ -122,6 +126,12 @@ func genOps(r *rand.Rand, k, f, n int) []Op {
 	}
 	for i := 0; i < n; i++ {
 		switch x := r.Intn(22); {
+		case x < 2:
+			if r.Intn(2) == 0 {
+				ops = append(ops, Op{K: "gset", A: r.Intn(2), B: 1 + r.Intn(1000)})
+			} else {
+				ops = append(ops, Op{K: "gget", A: r.Intn(2)})
+			}
 		case x < 4:
 			ops = append(ops, Op{K: "peek"})
 		case x < 5:
@@ -217,6 +227,10 @@ func corpus() []Program {
 			{{{K: "peek"}}},
 			{{{K: "peek"}, {K: "mgrow"}, {K: "slottail", A: 2}}, {{K: "tgrow"}, {K: "slotfn", A: 2}, {K: "peek"}}, {{K: "peek"}, {K: "mgrow"}, {K: "tgrow"}, {K: "msize"}}},
 			{{{K: "slottail", A: 2}}}}, [][2]int{{1, 0}, {1, 1}, {2, 0}, {3, 0}}),
+		mk(6, "one mutable global imported under two indexes: read through one, write through the other, read again - in one function", [nBins][][]Op{
+			{{{K: "gget", A: 0}, {K: "gset", A: 1, B: 11}, {K: "gget", A: 0}}},
+			{{{K: "gget", A: 1}, {K: "gset", A: 0, B: 7}, {K: "gget", A: 1}, {K: "gget", A: 0}, {K: "gset", A: 1, B: 8}, {K: "gget", A: 0}, {K: "imp", A: 0, B: 0}, {K: "gget", A: 1}}},
+			{{{K: "gget", A: 0}, {K: "imp", A: 1, B: 0}, {K: "gget", A: 0}, {K: "gget", A: 1}}}}, [][2]int{{1, 0}, {3, 0}, {2, 0}, {0, 0}}),
 		mk(5, "a trap / host panic two instances deep, entry module without listeners", [nBins][][]Op{
 			{{{K: "peek"}, {K: "trap"}}, {{K: "peek"}, {K: "hpanic"}}},
 			{{{K: "tgrow"}, {K: "imp", A: 0, B: 0}}, {{K: "imp", A: 0, B: 1}}},
@@ -232,6 +246,7 @@ type refInst struct {
 }
 
 type refState struct {
+	sg    int32 // the one shared global m0.sg
 	m     [nInst]refInst
 	slots [sharedTab][2]int // (instance, fn): slots 0..3 id functions; 4..7 DSL functions
 }
@@ -296,6 +311,10 @@ func (s *refState) run(p *Program, i, f int) string {
 		case "slottail":
 			t := s.slots[4+o.A]
 			return s.run(p, t[0], t[1])
+		case "gset":
+			s.sg = int32(o.B)
+		case "gget":
+			lg(int(s.sg))
 		case "trap":
 			return "trap"
 		case "hpanic":
@@ -336,11 +355,27 @@ func buildModule(p *Program, k int) []byte {
 	}
 	m.Table(1, u32p(maxTab1)) // table 1: private
 	m.Memory(1, u32p(maxPages), false, "memory")
+	// globals: b0 defines the log cursor (0) and the shared global sg (1, exported); b1 and b2 import m0.sg TWICE
+	// (indexes 0 and 1) and define the log cursor after them (2)
+	cur := uint32(0)
+	sgIdx := func(i int) uint32 { return 1 }
+	if k > 0 {
+		gt := wasm.GlobalType{ValType: wasm.ValueTypeI32, Mutable: true}
+		m.M.ImportSection = append(m.M.ImportSection, wasm.Import{Type: wasm.ExternTypeGlobal, Module: "m0", Name: "sg", DescGlobal: gt},
+			wasm.Import{Type: wasm.ExternTypeGlobal, Module: "m0", Name: "sg", DescGlobal: gt})
+		m.M.ImportGlobalCount = 2
+		cur = 2
+		sgIdx = func(i int) uint32 { return uint32(i) }
+	}
 	m.Global(32, logBase) // log cursor
+	if k == 0 {
+		m.Global(32, 0)
+		m.M.ExportSection = append(m.M.ExportSection, wasm.Export{Name: "sg", Type: wasm.ExternTypeGlobal, Index: 1})
+	}
 	logTop := func() []byte {
 		// value on the stack -> log
-		return wb.Cat(wb.LocalSet(0), wb.GlobalGet(0), wb.LocalGet(0), wb.MemArg(wasm.OpcodeI32Store, 2, 0),
-			wb.GlobalGet(0), wb.I32Const(4), wb.Op(wasm.OpcodeI32Add), wb.GlobalSet(0))
+		return wb.Cat(wb.LocalSet(0), wb.GlobalGet(cur), wb.LocalGet(0), wb.MemArg(wasm.OpcodeI32Store, 2, 0),
+			wb.GlobalGet(cur), wb.I32Const(4), wb.Op(wasm.OpcodeI32Add), wb.GlobalSet(cur))
 	}
 	for i := 0; i < 2; i++ {
 		// id_i returns 1000*(instance+1)+i: the instance number is the marker byte at address 0 minus 0xA0
@@ -375,6 +410,10 @@ func buildModule(p *Program, k int) []byte {
 				b = append(b, wb.Cat(wb.I32Const(int32(4+o.A)), []byte{wasm.OpcodeCallIndirect}, wb.U32(t0), []byte{0})...)
 			case "slottail":
 				b = append(b, wb.Cat(wb.I32Const(int32(4+o.A)), []byte{wasm.OpcodeTailCallReturnCallIndirect}, wb.U32(t0), []byte{0})...)
+			case "gset":
+				b = append(b, wb.Cat(wb.I32Const(int32(o.B)), wb.GlobalSet(sgIdx(o.A)))...)
+			case "gget":
+				b = append(b, wb.Cat(wb.GlobalGet(sgIdx(o.A)), logTop())...)
 			case "trap":
 				b = append(b, wasm.OpcodeUnreachable)
 			case "hpanic":
@@ -389,7 +428,7 @@ func buildModule(p *Program, k int) []byte {
 		Body: wb.Cat(wb.LocalGet(0), []byte{wasm.OpcodeCallIndirect}, wb.U32(t1), []byte{0})})
 	m.AddFunc(wb.Func{Results: []byte{wb.I32}, Export: "tsize", Body: wb.Misc(wasm.OpcodeMiscTableSize, 1)})
 	m.AddFunc(wb.Func{Results: []byte{wb.I32}, Export: "msize", Body: wb.MemorySize()})
-	m.AddFunc(wb.Func{Results: []byte{wb.I32}, Export: "cur", Body: wb.GlobalGet(0)})
+	m.AddFunc(wb.Func{Results: []byte{wb.I32}, Export: "cur", Body: wb.GlobalGet(cur)})
 	var elems []wb.Elem
 	switch k {
 	case 0:
